@@ -69,7 +69,13 @@ Geoms == [i \in 1..(Len(TickCat) + Len(Edge)) |-> IF i <= Len(TickCat) THEN Sub(
 \* time buffers: 0, 1/2, 1, 2 ticks, far beyond time 0, and (closed-form kinds) 2e8 sub-ticks = 1e8 / 5e7 / 1.25e7 s:
 \* longer than MAX_FREQUENCY seconds at every unit -- the time axis is unbounded above, the result must end at end + tb
 BT == <<0, 1, 2, 4, 200, 200000000>>
-BF == <<0, 8, 16, 32, 2 * FMAXS>>                \* frequency buffers: 0, 1/2, 1, 2 ticks, twice the domain
+\* frequency buffers: 0, 1/2, 1, 2 ticks, twice the domain; and, for shapes within reach of MAX_FREQUENCY, buffers that are
+\* neither powers of two nor round numbers (3, 17, 34, 68, 285 sub-ticks: for 17, 34, 68, 285 the product MAX * (1/b) / (1/b)
+\* is not MAX in doubles) -- the result must stay inside the domain whatever the buffer's binary expansion
+BF == <<0, 8, 16, 32, 2 * FMAXS, 3, 17, 34, 68, 285>>
+NearTop(g) == g.type \notin TimeOnlyKinds /\ Bounds(g, FMAXS)[4] >= FMAXS - 600
+NF(g) == IF NearTop(g) THEN 10 ELSE 5
+UpF(j) == IF j <= 5 THEN Min(j + 1, 5) ELSE Min(j + 1, 10)
 NT(g) == IF g.type \in ClosedKinds THEN 6 ELSE 5   \* the shapely kinds stay below 2^31 / 207 (their targets are scaled by CapD)
 UpT(g, i) == Min(i + 1, NT(g))
 Up(i) == Min(i + 1, 5)
@@ -98,10 +104,10 @@ UnitsOf(gi, i, j) == IF AllUnits THEN 1..3 ELSE {((gi + i + 2 * j) % 3) + 1}    
 TypesOf(gi, i, j) == IF Geoms[gi].type \in ClosedKinds THEN LET q == ((gi + i + j) % 3) + 1 IN {q, q + 3, q + 6}
                      ELSE {((2 * gi + 3 * i + j) % 9) + 1}
 Descriptors == UNION {UNION {{[gi |-> gi, i |-> i, j |-> j, neg |-> 0, u |-> u, ty |-> q] : u \in UnitsOf(gi, i, j), q \in TypesOf(gi, i, j)} :
-                                 i \in 1..NT(Geoms[gi]), j \in 1..5} : gi \in 1..Len(Geoms)}
+                                 i \in 1..NT(Geoms[gi]), j \in 1..NF(Geoms[gi])} : gi \in 1..Len(Geoms)}
           \cup {[gi |-> gi, i |-> 1, j |-> 1, neg |-> n, u |-> (n % 3) + 1, ty |-> <<1, 2, 5>>[((gi + n) % 3) + 1]] : gi \in 1..Len(Geoms), n \in 1..3}
 B1(d) == IF d.neg = 0 THEN <<BT[d.i], BF[d.j]>> ELSE NegPairs[d.neg][1]
-B2(d) == IF d.neg = 0 THEN <<BT[UpT(Geoms[d.gi], d.i)], BF[Up(d.j)]>> ELSE NegPairs[d.neg][2]
+B2(d) == IF d.neg = 0 THEN <<BT[UpT(Geoms[d.gi], d.i)], BF[UpF(d.j)]>> ELSE NegPairs[d.neg][2]
 Concrete(d) == [g |-> Geoms[d.gi], b1 |-> B1(d), b2 |-> B2(d), probes |-> Probes(Geoms[d.gi]), u |-> d.u,
                 t1 |-> ArgTypes(BufTypes[d.ty], B1(d), d.u), t2 |-> ArgTypes(BufTypes[d.ty], B2(d), d.u)]
 
